@@ -36,6 +36,15 @@ package main
 // loaders of any kind, the same file path in two FileLoaders, or one loader object added twice) with a different
 // document that overlaps in keys between the two positions of the effective loader sequence (tag `repeat-xyx`):
 // the last one wins also when its content was merged before.
+//
+// Many loaders (tag `many-loaders`, cfgGenMany): the property quantifies over all numbers of loaders, so every 25th
+// generated case (and three corpus lines) holds 12-40 loaders of mixed order classes, the priority/ordered ones
+// also added AFTER none-ordered ones, with forced overlaps: loader #i defines the chain keys s<i> and s<i+1> (so
+// every pair of neighbours shares a key) and most loaders define the common key `z`, each with its own value, next
+// to the usual random trees and the private markers. The loader sequence of the property is a function of the
+// classes and of the order of addition alone, whatever the number of loaders. A priority or ordered class with 13
+// or more members never holds two equal Order() values (the property does not say how ties are broken; Go's
+// sort.Slice keeps ties in place only up to 12 elements), smaller classes do hold ties.
 
 import (
 	"fmt"
@@ -928,6 +937,99 @@ func cfgCorpus(w *hx.Writer) {
 		}
 		cfgRun(env, opts, paths, []string{"corpus"}, w)
 	}
+	for _, scn := range cfgManyCorpus() {
+		opts, paths, ok := cfgParse(scn)
+		if !ok {
+			panic("bad corpus line: " + scn)
+		}
+		cfgRun(env, opts, paths, []string{"corpus", "many-loaders"}, w)
+	}
+}
+
+// cfgManyCorpus: hand-made source sets with 13 and more loaders.
+func cfgManyCorpus() []string {
+	h := hx.Hex
+	doc := func(i int, extra string) string { // {svc: {owner: raw<i>}, z: v<i>, m<i>: <i>} (+ extra entries)
+		n := 3
+		if extra != "" {
+			n += (strings.Count(extra, "|") + 1) / 2 // key|value pairs
+			extra = " " + strings.ReplaceAll(extra, "|", " ")
+		}
+		return fmt.Sprintf("M %d %s M 1 %s P%s %s P%s %s P%s%s", n, h("svc"), h("owner"), h(fmt.Sprintf("raw%d", i)),
+			h("z"), h(fmt.Sprintf("v%d", i)), h(fmt.Sprintf("m%d", i)), h(strconv.Itoa(i)), extra)
+	}
+	var out []string
+	// (1) the default ArgsLoader, eleven raw documents added one by one, then app.SetConfig(file): 13 loaders, the file
+	// (priority) is read first, the raw documents follow in the order they were added: svc.owner = raw11
+	{
+		var t []string
+		for i := 1; i <= 11; i++ {
+			t = append(t, "AL 1 r "+doc(i, ""))
+		}
+		t = append(t, "SF f "+doc(12, h("only")+"|P"+h("file")))
+		t = append(t, "|", h("svc.owner"), h("z"), h("only"), h("svc"))
+		for i := 1; i <= 12; i++ {
+			t = append(t, h(fmt.Sprintf("m%d", i)))
+		}
+		out = append(out, strings.Join(t, " "))
+	}
+	// (2) 24 loaders in one SetConfigLoader: raw and args loaders interleaved with two ordered, two priority loaders
+	// and a file loader; every none-ordered neighbour pair shares a key
+	{
+		t := []string{"SL", "24"}
+		for i := 1; i <= 24; i++ {
+			chain := h(fmt.Sprintf("s%d", i)) + "|P" + h(fmt.Sprintf("v%d", i)) + "|" + h(fmt.Sprintf("s%d", i+1)) + "|P" + h(fmt.Sprintf("v%d", i))
+			switch {
+			case i == 7:
+				t = append(t, "o 1 "+doc(i, chain))
+			case i == 13:
+				t = append(t, "p 2 "+doc(i, chain))
+			case i == 17:
+				t = append(t, "o -1 "+doc(i, chain))
+			case i == 20:
+				t = append(t, "f "+doc(i, chain))
+			case i == 24:
+				t = append(t, "p -2 "+doc(i, chain))
+			case i%5 == 3:
+				t = append(t, fmt.Sprintf("a 4 %s P%s %s P%s %s P%s %s P%s", h("svc.owner"), h(fmt.Sprintf("arg%d", i)),
+					h(fmt.Sprintf("s%d", i)), h(fmt.Sprintf("v%d", i)), h(fmt.Sprintf("s%d", i+1)), h(fmt.Sprintf("v%d", i)),
+					h(fmt.Sprintf("m%d", i)), h(strconv.Itoa(i))))
+			default:
+				t = append(t, "r "+doc(i, chain))
+			}
+		}
+		t = append(t, "|", h("svc.owner"), h("z"))
+		for i := 1; i <= 25; i++ {
+			t = append(t, h(fmt.Sprintf("s%d", i)))
+		}
+		for i := 1; i <= 24; i++ {
+			t = append(t, h(fmt.Sprintf("m%d", i)))
+		}
+		out = append(out, strings.Join(t, " "))
+	}
+	// (3) a priority class of 16 with pairwise different orders added in a scrambled order (sort.Slice beyond its
+	// insertion-sort size), after and between four raw documents, and an ordered class of three with a tie
+	{
+		var t []string
+		id := 0
+		next := func(prefix string) string { id++; return prefix + " " + doc(id, "") }
+		t = append(t, "AL 2 "+next("r")+" "+next("r"))
+		for _, o := range []int{5, -7, 3, 9, 8, -2, 6, -5} {
+			t = append(t, "CA 1 "+next(fmt.Sprintf("p %d", o)))
+		}
+		t = append(t, "AL 3 "+next("o 1")+" "+next("r")+" "+next("o 1"))
+		for _, o := range []int{-1, 7, 2, -6, 4, 1, -4} {
+			t = append(t, "AL 1 "+next(fmt.Sprintf("p %d", o)))
+		}
+		t = append(t, "SF "+next("f")) // Order() 0, the only member of its class with that value
+		t = append(t, "AL 2 "+next("o 0")+" "+next("r"))
+		t = append(t, "|", h("svc.owner"), h("z"))
+		for i := 1; i <= id; i++ {
+			t = append(t, h(fmt.Sprintf("m%d", i)))
+		}
+		out = append(out, strings.Join(t, " "))
+	}
+	return out
 }
 
 // ---------------------------------------------------------------- generator
@@ -1448,6 +1550,216 @@ func cfgGenCase(r *hx.Rng) ([]copt, []string, []string) {
 	return opts, paths, uniq
 }
 
+// cfgGenMany: 12-40 loaders of mixed order classes with forced overlaps (see the head of the file). No `set`
+// option after the first one, so the effective loader list is (the default ArgsLoader and) all loaders of the line.
+func cfgGenMany(r *hx.Rng) ([]copt, []string, []string) {
+	g := &cfgGenSt{r: r, role: map[string]byte{}, conflict: false, tags: map[string]bool{}}
+	nl := 12 + r.Intn(29)
+	switch r.Intn(6) {
+	case 0:
+		nl = 12 + r.Intn(3) // around the size where sort.Slice leaves insertion sort (13 with the default loader)
+	case 1:
+		nl = 13 + r.Intn(8)
+	}
+	// class weights (out of 20): plain raw, args, file, priority, ordered
+	mode := r.Intn(4)
+	wts := [][5]int{{11, 4, 2, 1, 2}, {11, 4, 2, 1, 2}, {5, 3, 4, 4, 4}, {2, 1, 1, 8, 8}}[mode]
+	failing := -1
+	if r.P(1, 40) {
+		failing = r.Intn(nl)
+	}
+	nested := r.Bool() // chain keys below the map `n` (deep merge) or at the top level
+	var loaders []*cloader
+	for i := 0; i < nl; i++ {
+		l := &cloader{id: i + 1, out: 'D'}
+		k := r.Intn(20)
+		for j, kind := range []string{"r", "a", "f", "p", "o"} {
+			if k < wts[j] {
+				l.kind = kind
+				break
+			}
+			k -= wts[j]
+		}
+		if mode < 2 && i < 3 && r.P(3, 4) {
+			l.kind = "r" // none-ordered loaders first: the list is not in class order when an ordered one follows
+		}
+		l.order = []int{-2, -1, 0, 0, 1, 3}[r.Intn(6)]
+		loaders = append(loaders, l)
+	}
+	if mode < 2 {
+		// at least one priority/ordered loader after a none-ordered one
+		j := 1 + r.Intn(nl-1)
+		if r.P(1, 3) {
+			j = nl - 1
+		}
+		loaders[j].kind = []string{"f", "f", "p", "o"}[r.Intn(4)]
+		if loaders[0].kind != "a" {
+			loaders[0].kind = "r"
+		}
+	}
+	// a class of 13 or more members holds no two equal Order() values (a file loader's Order() is 0)
+	for _, cls := range []string{"fp", "o"} {
+		var mem []*cloader
+		for _, l := range loaders {
+			if strings.Contains(cls, l.kind) {
+				mem = append(mem, l)
+			}
+		}
+		if len(mem) < 13 {
+			continue
+		}
+		g.tags["big-class"] = true
+		pool := r.Perm(2*len(mem) + 1) // orders -len..len
+		fileSeen := false
+		pi := 0
+		for _, l := range mem {
+			if l.kind == "f" && !fileSeen {
+				fileSeen = true
+				continue
+			}
+			l.kind = cls[len(cls)-1:]
+			if pool[pi]-len(mem) == 0 {
+				pi++
+			}
+			l.order = pool[pi] - len(mem)
+			pi++
+		}
+	}
+	kinds := map[string]bool{}
+	common := r.P(3, 4)
+	for i, l := range loaders {
+		kinds[l.kind] = true
+		own := &cnode{kind: 'P', text: "v" + strconv.Itoa(l.id)}
+		marker := &cnode{kind: 'P', text: strconv.Itoa(l.id)}
+		mkey := fmt.Sprintf("m%d", l.id)
+		chain := []string{fmt.Sprintf("s%d", l.id), fmt.Sprintf("s%d", l.id+1)}
+		if nested {
+			chain = []string{"n." + chain[0], "n." + chain[1]}
+		}
+		if common && r.P(4, 5) {
+			chain = append(chain, "z")
+		}
+		if l.kind == "a" {
+			if r.P(1, 30) {
+				continue // no --app.config argument at all
+			}
+			if r.P(1, 2) {
+				t := g.mapNode("", 0, true)
+				flattenPairs(t, "", &l.pairs)
+			}
+			for _, c := range chain {
+				l.pairs = append(l.pairs, cpair{c, own})
+			}
+			l.pairs = append(l.pairs, cpair{mkey, marker})
+			continue
+		}
+		switch {
+		case i == failing:
+			l.out = 'X'
+			g.tags["failing"] = true
+		case r.P(1, 30):
+			l.out = 'E'
+			g.tags["empty"] = true
+		default:
+			if r.P(1, 2) {
+				l.doc = g.mapNode("", 0, false)
+			} else {
+				l.doc = &cnode{kind: 'M'}
+			}
+			for _, c := range chain {
+				graftDoc(l.doc, strings.Split(c, "."), own)
+			}
+			l.doc.keys = append(l.doc.keys, mkey)
+			l.doc.vals = append(l.doc.vals, marker)
+		}
+	}
+	// option sequence: only the first option may be a set
+	var opts []copt
+	for i := 0; i < nl; {
+		l := loaders[i]
+		var op string
+		switch k := r.Intn(20); {
+		case l.kind == "f" && k < 10:
+			op = "SF"
+		case len(opts) == 0 && k < 14:
+			op = []string{"SL", "SL", "SC"}[r.Intn(3)]
+		case k < 15:
+			op = "AL"
+		default:
+			op = "CA"
+		}
+		o := copt{op: op, ls: []*cloader{l}}
+		i++
+		for op != "SF" && i < nl && r.P(4, 5) {
+			o.ls = append(o.ls, loaders[i])
+			i++
+		}
+		opts = append(opts, o)
+	}
+	if opts[0].op != "SL" && opts[0].op != "SC" {
+		g.tags["default-kept"] = true
+	}
+	// query paths: every marker, every chain key, the common key, the paths of the random trees
+	seen := map[string]bool{}
+	var paths []string
+	add := func(p string) {
+		if !seen[strings.ToLower(p)] && len(paths) < 3*nl+24 {
+			seen[strings.ToLower(p)] = true
+			paths = append(paths, p)
+		}
+	}
+	for _, l := range loaders {
+		add(fmt.Sprintf("m%d", l.id))
+	}
+	for i := 1; i <= nl+1; i++ {
+		if nested {
+			add(fmt.Sprintf("n.s%d", i))
+		} else {
+			add(fmt.Sprintf("s%d", i))
+		}
+	}
+	add("z")
+	if nested {
+		add("n")
+	}
+	for _, j := range r.Perm(nl) {
+		l := loaders[j]
+		if l.kind == "a" {
+			if t, ok := argsTree(l.pairs); ok {
+				collectPaths(t, "", add)
+			}
+		} else if l.out == 'D' {
+			collectPaths(l.doc, "", add)
+		}
+	}
+	paths = append(paths, "zz", "")
+	size := "loaders12-14"
+	switch {
+	case nl > 24:
+		size = "loaders25-40"
+	case nl > 14:
+		size = "loaders15-24"
+	}
+	tags := []string{"many-loaders", size, fmt.Sprintf("many-mode%d", mode)}
+	for k := range kinds {
+		tags = append(tags, "kind-"+k)
+	}
+	for k := range g.tags {
+		tags = append(tags, k)
+	}
+	for _, o := range opts {
+		tags = append(tags, "op-"+o.op)
+	}
+	sort.Strings(tags)
+	var uniq []string
+	for j, t := range tags {
+		if j == 0 || t != tags[j-1] {
+			uniq = append(uniq, t)
+		}
+	}
+	return opts, paths, uniq
+}
+
 func cfgGen(rng *hx.Rng, n int, tier string, w *hx.Writer) {
 	for _, a := range os.Args {
 		if strings.HasPrefix(a, "--app.config") {
@@ -1458,7 +1770,13 @@ func cfgGen(rng *hx.Rng, n int, tier string, w *hx.Writer) {
 	defer func() { env.close() }()
 	for i := 0; i < n; i++ {
 		r := rng.Fork()
-		opts, paths, tags := cfgGenCase(r)
+		var opts []copt
+		var paths, tags []string
+		if i%25 == 12 {
+			opts, paths, tags = cfgGenMany(r)
+		} else {
+			opts, paths, tags = cfgGenCase(r)
+		}
 		cfgRun(env, opts, paths, tags, w)
 		if i%200 == 199 {
 			env.close()
